@@ -52,7 +52,7 @@ claim("C10",
       "builds - no arithmetic overflow when decoded positions stay below 2^64-1; allocation: what open builds in memory, and the reader's assembly buffer, are bounded by 2 x (total WAL bytes + one file) for ANY directory (AllocBound.v). The two premises are needed: known findings F9 (over-long last file: assert in RollingWriter::write) and F6 (record at position "
       "u64::MAX), both found by these proofs and reproduced on the crate on every run under catch_unwind with a watchdog, together with damaged / truncated / removed / duplicated files, stray entries, random "
       "and CRC-valid forged blocks.",
-      "The enumeration of panic sites is by reading the Rust source, kept tied to it by a per-function census of syntactic panic sites compared on every run (tools/panic_census.py, panic_sites.json); time arithmetic, overflow of in-memory size counters and allocation failure are not covered.",
+      "The enumeration of panic sites is by reading the Rust source, kept tied to it by a census of syntactic panic sites compared on every run (tools/panic_census.py, panic_sites.json: a file with more sites than enumerated breaks the tie); time arithmetic, overflow of in-memory size counters and allocation failure are not covered.",
       "Coq proof (termination measure; guards at enumerated panic sites) + checked model/code correspondence + catch_unwind oracle")
 claim("C11",
       "Coq theorems (PropC11.v): with a fault plan armed on read_dir / open / read, if the injected failure is reached then open returns an I/O error — never Ok, never Corruption, never a hang "
